@@ -605,7 +605,53 @@ def _id_prefix(prog):
         strs = [n for n in ast.walk(e) if isinstance(n, ast.Constant) and isinstance(n.value, str)]
         if len(strs) == 1:
             return e.left.value
+    if isinstance(e, ast.ListComp) and len(e.generators) == 1 and not e.generators[0].ifs and isinstance(e.generators[0].target, ast.Name):
+        # [TEMPLATE.format(rank) for rank in <index>]: the prefix is what the template puts before its only field
+        c = e.elt
+        if isinstance(c, ast.Call) and isinstance(c.func, ast.Attribute) and c.func.attr == "format" and len(c.args) == 1 and not c.keywords and isinstance(c.args[0], ast.Name) and c.args[0].id == e.generators[0].target.id:
+            t = c.func.value
+            if isinstance(t, ast.Name):
+                t = f.module.constants.get(t.id) if hasattr(f.module, "constants") else None
+                if t is None:
+                    t = _module_literal(f.module, c.func.value.id)
+            if isinstance(t, ast.Constant) and isinstance(t.value, str) and t.value.endswith("{}") and t.value.count("{") == 1:
+                return t.value[:-2]
     raise AnalysisError("create_topology_dataframe: the topology id is not `<string literal> + <rank>` (%s)" % u(e)[:120])
+
+
+def _regex_rank(pattern):
+    """(literal prefix, None | most digits group 1 can hold) of a pattern `<literal>(<digits>)[$]`, by its regex AST."""
+    import re._parser as rp
+    from re._constants import LITERAL, SUBPATTERN, MAX_REPEAT, MAXREPEAT, IN, CATEGORY, CATEGORY_DIGIT, RANGE, AT
+
+    try:
+        items = list(rp.parse(pattern))
+    except Exception as ex:
+        raise AnalysisError("the topology id pattern %r does not parse: %s" % (pattern, ex))
+    prefix = ""
+    while items and items[0][0] is LITERAL:
+        prefix += chr(items.pop(0)[1])
+    while items and items[-1][0] is AT:
+        items.pop()
+    if len(items) != 1 or items[0][0] is not SUBPATTERN or items[0][1][0] != 1 or len(items[0][1][3]) != 1:
+        raise AnalysisError("the topology id pattern %r is not `<literal>(<digits>)`" % pattern)
+    body = items[0][1][3][0]
+
+    def digit(t):
+        return t[0] is IN and len(t[1]) == 1 and (t[1][0] == (CATEGORY, CATEGORY_DIGIT) or t[1][0] == (RANGE, (48, 57)))
+
+    if digit(body):
+        return prefix, 1
+    if body[0] is MAX_REPEAT and len(body[1][2]) == 1 and digit(body[1][2][0]) and body[1][0] <= 1:
+        return prefix, (None if body[1][1] is MAXREPEAT else body[1][1])
+    raise AnalysisError("the topology id pattern %r: group 1 is not a run of digits" % pattern)
+
+
+def _module_literal(module, name):
+    """The literal a module-level name is bound to by its only assignment (None otherwise)."""
+    defs = [s.value for s in module.tree.body if isinstance(s, ast.Assign) and any(isinstance(t, ast.Name) and t.id == name for t in s.targets)]
+    stores = [n for n in ast.walk(module.tree) if isinstance(n, ast.Name) and n.id == name and isinstance(n.ctx, ast.Store)]
+    return defs[0] if len(defs) == 1 and len(stores) == 1 else None
 
 
 def rule_A3(ctx):
@@ -730,11 +776,27 @@ def _archive_body(ctx, f):
         sl = _atom(p[1]) if p else None
         if sl is not None and sl[0] == "slice" and _const_of_key(sl[2]) is None and _const_of_key(sl[3]) is None:
             idk, start = p[0], _const_of_key(sl[1])
+    if idk is None and rk is not None and rk[0] == "call" and rk[1] == "int" and len(rk[2]) == 1:
+        # rank = int(PATTERN.match(id).group(1)) with PATTERN a module-level re.compile(<literal>)
+        gm = _atom(rk[2][0])
+        mm = _atom(gm[2]) if gm is not None and gm[0] == "mcall" and gm[1] == "group" and len(gm[3]) == 1 and _const_of_key(gm[3][0]) == 1 else None
+        pat = _atom(mm[2]) if mm is not None and mm[0] == "mcall" and mm[1] in ("match", "fullmatch") and len(mm[3]) == 1 else None
+        if pat is not None and pat[0] == "g":
+            lit = _module_literal(f.module, pat[1].split(".")[-1])
+            if isinstance(lit, ast.Call) and (f.module.imports.get(call_name(lit).split(".")[0], "") + "." + call_name(lit).split(".", 1)[-1]) in ("re.compile", "re.compile.compile") and len(lit.args) == 1 and isinstance(lit.args[0], ast.Constant) and isinstance(lit.args[0].value, str):
+                got_prefix, digits = _regex_rank(lit.args[0].value)
+                idk = mm[3][0]
+                r0 = _row_read(idk)
+                ok = got_prefix == prefix and digits is None and r0 is not None and r0[1] == "topology_id" and r0[2] == 0
+                why = "rank = %s with pattern %r: ids are %r + rank; %s" % (show_key(ranks[0])[:160], lit.args[0].value, prefix, "the pattern expects the prefix %r" % got_prefix if got_prefix != prefix else "the group holds at most %s digit(s) of the rank" % digits if digits is not None else "the id is not read from column 'topology_id' of the matched row")
+                ctx.check(ok, "A4", "create_topologies_archive: rank is parsed from the matched row's topology_id by dropping the id prefix", f.where(), why, construct=f.qualname, stmt="rank parse")
+                start = "regex"
     if idk is None:
         raise AnalysisError("create_topologies_archive: the rank compared with top_trees is %s, not int(<id>[k:]) (unrecognised shape)" % show_key(ranks[0])[:160])
     r0 = _row_read(idk)
-    ok = start == len(prefix) and r0 is not None and r0[1] == "topology_id" and r0[2] == 0
-    ctx.check(ok, "A4", "create_topologies_archive: rank is parsed from the matched row's topology_id by dropping the id prefix", f.where(), "rank = %s: ids are %r + rank (prefix length %d) read from column 'topology_id'" % (show_key(ranks[0])[:200], prefix, len(prefix)), construct=f.qualname, stmt="rank parse")
+    if start != "regex":
+        ok = start == len(prefix) and r0 is not None and r0[1] == "topology_id" and r0[2] == 0
+        ctx.check(ok, "A4", "create_topologies_archive: rank is parsed from the matched row's topology_id by dropping the id prefix", f.where(), "rank = %s: ids are %r + rank (prefix length %d) read from column 'topology_id'" % (show_key(ranks[0])[:200], prefix, len(prefix)), construct=f.qualname, stmt="rank parse")
     # (c) the matched row
     rowk = r0[0] if r0 else None
     loc = _sub_parts(rowk) if rowk else None
@@ -1239,6 +1301,16 @@ SELFTEST = [
     {"name": "benign-A3-reset-index", "kind": "benign", "file": _P, "old": '    df = df.sort_values(by="log_p_joint_max", ascending=False, ignore_index=True)\n', "new": '    ranked = df.sort_values(by="log_p_joint_max", ascending=False)\n    df = ranked.reset_index(drop=True)\n'},
     {"name": "benign-A3-row-then-column", "kind": "benign", "file": _P, "old": '        map_iter = df["iter"].iloc[0]\n        chain_num = df["chain_num"].iloc[0]', "new": '        top = df.iloc[0]\n        map_iter = top["iter"]\n        chain_num = top["chain_num"]'},
     # ---- A4
+    {"name": "A4-id-pattern-reads-one-digit", "kind": "break", "rule": "A4", "edits": [
+        {"file": _P, "old": "import gzip\nimport pickle\n", "new": "import gzip\nimport pickle\nimport re\n"},
+        {"file": _P, "old": "\n\ndef write_map_results(\n", "new": "\n_TOPOLOGY_ID_TEMPLATE = \"t_{}\"\n_TOPOLOGY_ID_PATTERN = re.compile(r\"t_(\\d)\")\n\n\ndef _topology_rank(topology_id):\n    return int(_TOPOLOGY_ID_PATTERN.match(topology_id).group(1))\n\n\ndef write_map_results(\n"},
+        {"file": _P, "old": "topology_rank = int(topology_id[2:])", "new": "topology_rank = _topology_rank(topology_id)"},
+        {"file": _P, "old": "\"t_\" + df.index.astype(str)", "new": "[_TOPOLOGY_ID_TEMPLATE.format(rank) for rank in df.index]"}]},
+    {"name": "benign-A4-id-template-and-pattern", "kind": "benign", "edits": [
+        {"file": _P, "old": "import gzip\nimport pickle\n", "new": "import gzip\nimport pickle\nimport re\n"},
+        {"file": _P, "old": "\n\ndef write_map_results(\n", "new": "\n_TOPOLOGY_ID_TEMPLATE = \"t_{}\"\n_TOPOLOGY_ID_PATTERN = re.compile(r\"t_(\\d+)\")\n\n\ndef _topology_rank(topology_id):\n    return int(_TOPOLOGY_ID_PATTERN.match(topology_id).group(1))\n\n\ndef write_map_results(\n"},
+        {"file": _P, "old": "topology_rank = int(topology_id[2:])", "new": "topology_rank = _topology_rank(topology_id)"},
+        {"file": _P, "old": "\"t_\" + df.index.astype(str)", "new": "[_TOPOLOGY_ID_TEMPLATE.format(rank) for rank in df.index]"}]},
     {"name": "A4-strictly-greater", "kind": "break", "rule": "A4", "file": _P, "old": "if topology_rank >= top_trees:", "new": "if topology_rank > top_trees:"},
     {"name": "A4-break-instead-of-continue", "kind": "break", "rule": "A4", "file": _P, "old": "                if topology_rank >= top_trees:\n                    continue", "new": "                if topology_rank >= top_trees:\n                    break"},
     {"name": "A4-prefix-changed-writer-only", "kind": "break", "rule": "A4", "file": _P, "old": '"t_" + df.index.astype(str)', "new": '"top_" + df.index.astype(str)'},
